@@ -2,6 +2,7 @@ package main
 
 import (
 	"fmt"
+	"strconv"
 	"go/constant"
 	"go/token"
 	"go/types"
@@ -262,12 +263,9 @@ func (ex *executor) constVal(c *ssa.Const) Value {
 
 func fpConst(f float64) *Term {
 	// exact via rational → use to_fp of a decimal; integers and simple fractions only
-	s := fmt.Sprintf("%g", f)
-	if !strings.ContainsAny(s, ".e") {
+	s := strconv.FormatFloat(f, 'f', -1, 64)
+	if !strings.Contains(s, ".") {
 		s += ".0"
-	}
-	if strings.Contains(s, "e") {
-		panic(unsupported{"float constant " + s})
 	}
 	neg := false
 	if strings.HasPrefix(s, "-") {
@@ -432,6 +430,10 @@ func (ex *executor) execInstr(st *state, in ssa.Instruction) {
 	case *ssa.Range:
 		x := ex.val(t.X)
 		ex.setVal(t, Value{T: t.Type(), C: x.C[:1]})
+		if _, isMap := t.X.Type().Underlying().(*types.Map); isMap {
+			cls := ex.visitedClass(t)
+			st.heaps[cls.Name] = &Heap{kind: hConst, id: nextHeapID(), cls: cls, val: False}
+		}
 	case *ssa.Next:
 		ex.execNext(st, t)
 	case *ssa.Call:
@@ -447,10 +449,17 @@ func (ex *executor) execInstr(st *state, in ssa.Instruction) {
 	case *ssa.Go:
 		ex.execGo(st, t)
 	case *ssa.Send:
-		ex.havocAll(st, "channel send")
+		ex.yield(st, "channel send")
 	case *ssa.Select:
-		ex.havocAll(st, "select")
-		ex.setVal(t, freshValue("select", t.Type()))
+		ex.yield(st, "select")
+		v := freshValue("select", t.Type())
+		// the chosen case index is one of the states (or -1 for the default of a non-blocking select)
+		lo := int64(0)
+		if !t.Blocking {
+			lo = -1
+		}
+		ex.assume(st, And(BVCmp("bvsle", BVI(lo, 64), v.C[0]), BVCmp("bvslt", v.C[0], BVI(int64(len(t.States)), 64))))
+		ex.setVal(t, v)
 	case *ssa.SliceToArrayPointer:
 		panic(unsupported{"slice to array pointer"})
 	case *ssa.MultiConvert:
@@ -529,7 +538,7 @@ func (ex *executor) execUnOp(st *state, t *ssa.UnOp) {
 	case token.XOR:
 		ex.setVal(t, Value{T: t.Type(), C: []*Term{BVNot(x.C[0])}})
 	case token.ARROW:
-		ex.havocAll(st, "channel receive")
+		ex.yield(st, "channel receive")
 		ex.setVal(t, freshValue("recv", t.Type()))
 	default:
 		panic(unsupported{"unary " + t.Op.String()})
@@ -1114,6 +1123,21 @@ func (ex *executor) execNext(st *state, t *ssa.Next) {
 	k := freshValue("next.k", m.Key())
 	v, in := ex.mapLookup(st, mt, it.C[0], k)
 	ex.assume(st, Implies(ok, in))
+	// visited-set semantics: each key is produced at most once; when the iteration ends every
+	// key still in the map has been produced (the body may delete keys, not insert them)
+	vcls := ex.visitedClass(rng)
+	vh := ex.heapOf(st, vcls)
+	ex.assume(st, Implies(ok, Not(vh.Read(k.C))))
+	{
+		var bvs []*Term
+		for i, s := range shapeOf(m.Key()) {
+			bvs = append(bvs, BoundVar(fmt.Sprintf("vk%d", i), s))
+		}
+		dom, _, _ := ex.mapClassesFor(mt)
+		inb := ex.heapOf(st, dom).Read(append([]*Term{it.C[0]}, bvs...))
+		ex.assume(st, Implies(Not(ok), Forall(bvs, Implies(inb, vh.Read(bvs)))))
+	}
+	st.heaps[vcls.Name] = HeapIte(ok, vh.Store(k.C, True), vh)
 	// an empty map yields no element
 	_, _, lnc := ex.mapClassesFor(mt)
 	ln := ex.heapOf(st, lnc).Read([]*Term{it.C[0]})
@@ -1121,12 +1145,12 @@ func (ex *executor) execNext(st *state, t *ssa.Next) {
 	var c []*Term
 	c = append(c, ok)
 	if isBlankTuple(tt.At(1).Type()) {
-		c = append(c, zeroValue(tt.At(1).Type()).C...)
+		// blank key: no component
 	} else {
 		c = append(c, k.C...)
 	}
 	if isBlankTuple(tt.At(2).Type()) {
-		c = append(c, zeroValue(tt.At(2).Type()).C...)
+		// blank value: no component
 	} else {
 		c = append(c, v.C...)
 	}
@@ -1164,4 +1188,41 @@ func (ex *executor) floorDivLemma(st *state, f *Term, w int) (*Term, bool) {
 	nz := Not(Eq(bi, BVI(0, 32)))
 	unk := FreshVar("fpdiv0", BV(w))
 	return Ite(nz, Resize(q, w, false), unk), true
+}
+
+// visitedClass: ghost set of keys already produced by a map range statement.
+func (ex *executor) visitedClass(r *ssa.Range) *HeapClass {
+	m := r.X.Type().Underlying().(*types.Map)
+	idx := 0
+	for bi, b := range r.Parent().Blocks {
+		for ii, in := range b.Instrs {
+			if in == ssa.Instruction(r) {
+				idx = bi*1000 + ii
+			}
+		}
+	}
+	name := fmt.Sprintf("R:%s:%d:visited", fnKey(r.Parent()), idx)
+	return ex.eng.class(name, shapeOf(m.Key()), BoolSort, false)
+}
+
+// yield: a point where the goroutine may block and others run. Everything except this
+// goroutine's lock ghost state is havocked; the contract's `yields` conditions (rely
+// conditions on shared state) are then assumed.
+func (ex *executor) yield(st *state, why string) {
+	keep := map[string]*Heap{}
+	for _, g := range []string{"G:wheld#0", "G:rheld#0", "G:mheld#0"} {
+		if cls := ex.eng.classes[g]; cls != nil {
+			keep[g] = ex.heapOf(st, cls)
+		}
+	}
+	ex.havocAll(st, why)
+	for g, h := range keep {
+		st.heaps[g] = h
+	}
+	r := ex.root()
+	if r.contract != nil {
+		for _, y := range r.contract.Yields {
+			ex.assume(st, ex.evalBoolClause(y, st, r.entry, nil))
+		}
+	}
 }
